@@ -618,6 +618,7 @@ def r87(ctx):
 
 def run(ctx):
     ctx.rule("R-8.7", "one ensemble-index unit per store: self.locked entries offset-removed, restart.toml's locked and lock()/swap() indices in state-matrix rows", floor=4)
+    ctx.rule("R-8.8", "the commit is final: nothing restart.toml serialises is modified after write_toml within the step", floor=1)
     ctx.rule("R-8.1", "store before commit: numbered path reaches write_toml only through pstore.output; output() performs mkdir, txt files and moves on every path", floor=4)
     ctx.rule("R-8.2", "atomic commit: dump to a temporary name, os.replace over the file setup_config reads", floor=1)
     ctx.rule("R-8.3", "only retired paths are deleted: operands from the FIFO head, insertion after deletion, lag and initial-path guards", floor=5)
@@ -631,6 +632,8 @@ def run(ctx):
     ctx.attempt(r85, ctx)
     ctx.attempt(r86, ctx)
     ctx.attempt(r87, ctx)
+    from .shared import commit_is_final
+    ctx.attempt(commit_is_final, ctx, "R-8.8")
 
 
 VARIANTS = [
@@ -657,6 +660,7 @@ VARIANTS = [
     B("c08-commit-without-offset", REPEX, "([int(tup0 + self._offset) for tup0 in tup[0]], tup[1])", "([int(tup0) for tup0 in tup[0]], tup[1])", "R-8.7"),
     B("c08-reissue-lock-wrong-unit", REPEX, "            self.swap(traj_idx, ens)\n            self.lock(ens)\n", "            self.swap(traj_idx, ens)\n            self.lock(ens - self._offset)\n", "R-8.7"),
     K("c08-keep-offset-via-local", REPEX, "            enss.append(ens - self._offset)\n", "            rel = ens - self._offset\n            enss.append(rel)\n"),
+    B("c08-commit-before-sort", REPEX, "        self.sort_trajstate()\n        self.config[\"current\"][\"traj_num\"] = traj_num\n", "        self.config[\"current\"][\"traj_num\"] = traj_num\n        self.write_toml()\n        self.sort_trajstate()\n", "R-8.8", why="seeded C06_a"),
     K("c08-keep-tmp-name-constant", REPEX, '        with open("./restart.toml.tmp", "wb") as f:\n            tomli_w.dump(self.config, f)\n        os.replace("./restart.toml.tmp", "./restart.toml")', '        tmp_name = "restart.toml" + ".tmp"\n        with open(tmp_name, "wb") as f:\n            tomli_w.dump(self.config, f)\n        os.replace(tmp_name, "restart.toml")'),
     K("c08-keep-initial-guard-ge", REPEX, "                    and pn_old > self.n - 2\n", "                    and pn_old >= self.n - 1\n"),
     K("c08-keep-rename-os-rename", REPEX, 'os.replace("./restart.toml.tmp", "./restart.toml")', 'os.rename("./restart.toml.tmp", "./restart.toml")'),
